@@ -693,8 +693,72 @@ def start_points():
                  type(e).__name__)
 
 
+def cpl_faults():
+    """fault injection at every factor / solve index of cpl (through a user
+    kktsolver that wraps misc.kkt_ldl): only the documented ValueError about
+    the rank (start-up / first iteration) may leave the solver, and no
+    'optimal' is returned after a contained failure"""
+    from cvxopt import solvers, matrix, spmatrix, spdiag, log, misc
+    solvers.options['show_progress'] = False
+
+    def problems():
+        # minimize c'x  s.t.  -sum log(x) <= 0,  x <= u
+        for cvec, u in (([1.0, 2.0], 5.0), ([3.0, 1.0, 2.0], 4.0)):
+            n = len(cvec)
+
+            def F(x=None, z=None, n=n):
+                if x is None:
+                    return 1, matrix(2.0, (n, 1))
+                if min(x) <= 0.0:
+                    return None
+                f = matrix(-sum(log(x)))
+                Df = -(x**-1).T
+                if z is None:
+                    return f, Df
+                return f, Df, spdiag(z[0] * x**-2)
+            G = spmatrix(1.0, range(n), range(n))
+            h = matrix(u, (n, 1))
+            dims = {'l': n, 'q': [], 's': []}
+            A = spmatrix([], [], [], (0, n))
+            yield 'logbarrier%d' % n, matrix(cvec), F, G, h, dims, A
+
+    for pname, c, F, G, h, dims, A in problems():
+        def run(inject):
+            fac = misc.kkt_ldl(G, dims, A, 1)
+
+            def inner(x, z, W):
+                f, Df, H = F(x, z)
+                return fac(W, H, Df)
+            inj = Injector(inner, *inject)
+            try:
+                sol = solvers.cpl(c, F, G, h, dims, kktsolver=inj,
+                                  options={'show_progress': False})
+            except ValueError as e:
+                if inj.nf <= 1 and 'Rank' in str(e):
+                    return inj        # documented, first factorization
+                fail('exception-type', 'cpl(%s) inject=%r raised ValueError'
+                     ' after the first factorization: %s' % (pname, inject,
+                                                             e))
+                return inj
+            except Exception as e:
+                fail('exception-type', 'cpl(%s) inject=%r raised %s: %s' % (
+                    pname, inject, type(e).__name__, e))
+                return inj
+            return inj
+        inj = run((None, None))
+        nf, ns = inj.nf, inj.ns
+        for k in range(1, min(nf, 14) + 1):
+            run((k, None))
+        for k in range(1, min(ns, 30) + 1):
+            run((None, k))
+
+
 def main():
     splits()
+    try:
+        cpl_faults()
+    except Exception:
+        fail('battery-error', 'cpl faults: ' + traceback.format_exc()[-600:])
     try:
         start_points()
     except Exception:
